@@ -9,27 +9,30 @@ open Der Asn1
 abbrev Oid := List Nat
 abbrev R := Except String
 
-structure Curve where
-  name : String
-  oid : Oid
-  order : Nat              -- group order n
-deriving DecidableEq, Repr
-
 def hexNat (s : String) : Nat :=
   s.foldl (fun a c => a * 16 + (if '0' ≤ c ∧ c ≤ '9' then c.toNat - 48 else if 'a' ≤ c ∧ c ≤ 'f' then c.toNat - 87 else c.toNat - 55)) 0
 
+structure Curve where
+  name : String
+  oid : Oid
+  orderHex : String        -- group order n, hexadecimal (as `Params().N.Text(16)` prints it)
+deriving DecidableEq, Repr
+
+/-- group order n -/
+def Curve.order (c : Curve) : Nat := hexNat c.orderHex
+
 /-- the ten supported curves (name, OID, group order) -/
 def curves : List Curve := [
-  ⟨"P-224", [1,3,132,0,33], hexNat "ffffffffffffffffffffffffffff16a2e0b8f03e13dd29455c5c2a3d"⟩,
-  ⟨"P-256", [1,2,840,10045,3,1,7], hexNat "ffffffff00000000ffffffffffffffffbce6faada7179e84f3b9cac2fc632551"⟩,
-  ⟨"P-384", [1,3,132,0,34], hexNat "ffffffffffffffffffffffffffffffffffffffffffffffffc7634d81f4372ddf581a0db248b0a77aecec196accc52973"⟩,
-  ⟨"P-521", [1,3,132,0,35], hexNat "1fffffffffffffffffffffffffffffffffffffffffffffffffffffffffffffffffa51868783bf2f966b7fcc0148f709a5d03bb5c9b8899c47aebb6fb71e91386409"⟩,
-  ⟨"brainpoolP256r1", [1,3,36,3,3,2,8,1,1,7], hexNat "a9fb57dba1eea9bc3e660a909d838d718c397aa3b561a6f7901e0e82974856a7"⟩,
-  ⟨"brainpoolP384r1", [1,3,36,3,3,2,8,1,1,11], hexNat "8cb91e82a3386d280f5d6f7e50e641df152f7109ed5456b31f166e6cac0425a7cf3ab6af6b7fc3103b883202e9046565"⟩,
-  ⟨"brainpoolP512r1", [1,3,36,3,3,2,8,1,1,13], hexNat "aadd9db8dbe9c48b3fd4e6ae33c9fc07cb308db3b3c9d20ed6639cca70330870553e5c414ca92619418661197fac10471db1d381085ddaddb58796829ca90069"⟩,
-  ⟨"brainpoolP256t1", [1,3,36,3,3,2,8,1,1,8], hexNat "a9fb57dba1eea9bc3e660a909d838d718c397aa3b561a6f7901e0e82974856a7"⟩,
-  ⟨"brainpoolP384t1", [1,3,36,3,3,2,8,1,1,12], hexNat "8cb91e82a3386d280f5d6f7e50e641df152f7109ed5456b31f166e6cac0425a7cf3ab6af6b7fc3103b883202e9046565"⟩,
-  ⟨"brainpoolP512t1", [1,3,36,3,3,2,8,1,1,14], hexNat "aadd9db8dbe9c48b3fd4e6ae33c9fc07cb308db3b3c9d20ed6639cca70330870553e5c414ca92619418661197fac10471db1d381085ddaddb58796829ca90069"⟩]
+  ⟨"P-224", [1,3,132,0,33], "ffffffffffffffffffffffffffff16a2e0b8f03e13dd29455c5c2a3d"⟩,
+  ⟨"P-256", [1,2,840,10045,3,1,7], "ffffffff00000000ffffffffffffffffbce6faada7179e84f3b9cac2fc632551"⟩,
+  ⟨"P-384", [1,3,132,0,34], "ffffffffffffffffffffffffffffffffffffffffffffffffc7634d81f4372ddf581a0db248b0a77aecec196accc52973"⟩,
+  ⟨"P-521", [1,3,132,0,35], "1fffffffffffffffffffffffffffffffffffffffffffffffffffffffffffffffffa51868783bf2f966b7fcc0148f709a5d03bb5c9b8899c47aebb6fb71e91386409"⟩,
+  ⟨"brainpoolP256r1", [1,3,36,3,3,2,8,1,1,7], "a9fb57dba1eea9bc3e660a909d838d718c397aa3b561a6f7901e0e82974856a7"⟩,
+  ⟨"brainpoolP384r1", [1,3,36,3,3,2,8,1,1,11], "8cb91e82a3386d280f5d6f7e50e641df152f7109ed5456b31f166e6cac0425a7cf3ab6af6b7fc3103b883202e9046565"⟩,
+  ⟨"brainpoolP512r1", [1,3,36,3,3,2,8,1,1,13], "aadd9db8dbe9c48b3fd4e6ae33c9fc07cb308db3b3c9d20ed6639cca70330870553e5c414ca92619418661197fac10471db1d381085ddaddb58796829ca90069"⟩,
+  ⟨"brainpoolP256t1", [1,3,36,3,3,2,8,1,1,8], "a9fb57dba1eea9bc3e660a909d838d718c397aa3b561a6f7901e0e82974856a7"⟩,
+  ⟨"brainpoolP384t1", [1,3,36,3,3,2,8,1,1,12], "8cb91e82a3386d280f5d6f7e50e641df152f7109ed5456b31f166e6cac0425a7cf3ab6af6b7fc3103b883202e9046565"⟩,
+  ⟨"brainpoolP512t1", [1,3,36,3,3,2,8,1,1,14], "aadd9db8dbe9c48b3fd4e6ae33c9fc07cb308db3b3c9d20ed6639cca70330870553e5c414ca92619418661197fac10471db1d381085ddaddb58796829ca90069"⟩]
 
 /-- `namedCurveFromOID` -/
 def namedCurveFromOID (o : Oid) : Option Curve := curves.find? (·.oid = o)
@@ -82,17 +85,18 @@ def ecPrivateKeyFields : Tlv → Option (Bytes × Option Oid)
   | _ => none
 
 /-- `parseECPrivateKey(namedCurveOID, der)`: returns curve and scalar; the caller's OID wins over the inner one -/
-def parseEcInner (outer : Option Oid) (der : Bytes) : R (Curve × Nat) := do
-  let t ← match decodePrefix der with | some t => pure t | none => throw "x509: failed to parse EC private key"
-  let (sc, inner) ← match ecPrivateKeyFields t with | some f => pure f | none => throw "x509: failed to parse EC private key"
-  let oid := match outer with | some o => o | none => inner.getD []
-  let curve ← match namedCurveFromOID oid with | some c => pure c | none => throw "cert: unknown curve oid"
-  let k := beNat sc
-  if k = 0 || k ≥ curve.order then throw "x509: invalid elliptic curve private key value"
-  -- leading zero padding beyond the field width is tolerated, other excess octets are not
-  let w := scalarWidth curve
-  if sc.length > w && (sc.take (sc.length - w)).any (· ≠ 0) then throw "x509: invalid private key length"
-  pure (curve, k)
+def parseEcInner (outer : Option Oid) (der : Bytes) : R (Curve × Nat) :=
+  match (decodePrefix der).bind ecPrivateKeyFields with
+  | none => .error "x509: failed to parse EC private key"
+  | some (sc, inner) =>
+    match namedCurveFromOID (match outer with | some o => o | none => inner.getD []) with
+    | none => .error "cert: unknown curve oid"
+    | some curve =>
+      if beNat sc = 0 || beNat sc ≥ curve.order then .error "x509: invalid elliptic curve private key value"
+      -- leading zero padding beyond the field width is tolerated, other excess octets are not
+      else if sc.length > scalarWidth curve && (sc.take (sc.length - scalarWidth curve)).any (· ≠ 0) then
+        .error "x509: invalid private key length"
+      else .ok (curve, beNat sc)
 
 inductive Parsed
   | ec (curve : Curve) (d : Nat)
